@@ -148,8 +148,8 @@ extern MPT_STRUCT(command) *mpt_command_reserve(MPT_STRUCT(array) *arr, size_t m
 			return 0;
 		}
 	}
-	/* add command slot */
-	if (!(cmd = mpt_array_append(arr, sizeof(*cmd), 0))) {
+	/* add command slot (array may have raw or command content) */
+	if (!(cmd = mpt_array_insert(arr, used * sizeof(*cmd), sizeof(*cmd)))) {
 		return 0;
 	}
 	
